@@ -100,4 +100,14 @@ let () =
       Printf.printf "%s\t%scalls=%d set=%s perpart=ok cursors=%s\n" id
         (match st with Done -> "" | OutOfFuel -> "NONTERM " | _ -> "err ") (List.length mps) (hl_print items)
         (String.concat "|" (List.map (fun (_, mc) -> cur_str mc) mps))
+    | id :: "X" :: table :: texts :: _ ->
+      let tb = bytes_of_hex table in
+      let ts = hl_parse texts in
+      let res = List.map (fun t ->
+          match real_decode_scan_cursor (tb @ (scan_node_sep :: t)) with
+          | Ok (_, mc) ->
+            (String.concat "," (List.map (fun (p, c) -> string_of_int (int_of_nat p) ^ ":" ^ hex_of_bytes c) mc),
+             hex_of_bytes (real_encode_mcursor mc))
+          | _ -> ("?", "?")) ts in
+      Printf.printf "%s\tdec=%s enc=%s\n" id (String.concat "|" (List.map fst res)) (String.concat "," (List.map snd res))
     | _ -> ())
